@@ -95,12 +95,14 @@ def powNat (n : Nat) (lo hi : Rat) : Rat × Rat :=
 def recipI (a b : Rat) : Except Err (Rat × Rat) :=
   if a ≤ 0 ∧ b ≥ 0 then .error .ZeroDivision else mkI (1 / b) (1 / a)
 
-/-- `Interval.__pow__` with an integer exponent (negative: reciprocal of the positive power) -/
+/-- `Interval.__pow__` with an integer exponent; negative: `(1 / x) ** (-k)` — the reciprocal first (it raises
+`ZeroDivisionError` when 0 is in x), then the non-negative power of the reciprocal -/
 def powI (k : Int) (lo hi : Rat) : Except Err (Rat × Rat) :=
   if k < 0 then
-    let p := powNat k.natAbs lo hi
-    match mkI p.1 p.2 with
-    | .ok q => recipI q.1 q.2
+    match recipI lo hi with
+    | .ok q =>
+      let p := powNat k.natAbs q.1 q.2
+      mkI p.1 p.2
     | .error e => .error e
   else
     let p := powNat k.natAbs lo hi
@@ -115,14 +117,13 @@ def powOp (kind : ExpKind) (k : Int) (lo hi : Rat) : Except Err (Rat × Rat) :=
 def powA (kind : ExpKind) (k : Int) (los his : List Rat) : Except Err (List (Rat × Rat)) :=
   match kind with
   | .int | .npint =>
-    let ps := (los.zip his).map (fun p => powNat k.natAbs p.1 p.2)
-    match mkA ps with
-    | .error e => .error e
-    | .ok qs =>
-      if k < 0 then
-        if qs.any (fun q => decide (q.1 ≤ 0 ∧ q.2 ≥ 0)) then .error .ZeroDivision
-        else mkA (qs.map (fun q => (1 / q.2, 1 / q.1)))
-      else .ok qs
+    if k < 0 then
+      if (los.zip his).any (fun q => decide (q.1 ≤ 0 ∧ q.2 ≥ 0)) then .error .ZeroDivision
+      else
+        match mkA ((los.zip his).map (fun q => (1 / q.2, 1 / q.1))) with
+        | .error e => .error e
+        | .ok rs => mkA (rs.map (fun r => powNat k.natAbs r.1 r.2))
+    else mkA ((los.zip his).map (fun p => powNat k.natAbs p.1 p.2))
   | _ => .error .Other
 
 /-! ## logistic function and tanh (interval expressions built from C01 operators and `exp`) -/
